@@ -21,6 +21,7 @@ import (
 	"github.com/practable/relay/internal/permission"
 	"github.com/practable/relay/internal/ttlcode"
 	"github.com/practable/relay/internal/util"
+	"github.com/practable/relay/internal/verifhook"
 	log "github.com/sirupsen/logrus"
 )
 
@@ -520,6 +521,7 @@ func (h *Hub) run() {
 			if err != nil {
 				log.WithFields(log.Fields{"error": err.Error(), "topic": client.topic, "booking_id": client.bookingID}).Warning("deny channel not added on client register")
 			}
+			verifhook.Point("hub.afterRegister", client.bookingID)
 		case client := <-h.unregister:
 			h.drop(client)
 		case message := <-h.broadcast:
@@ -556,6 +558,7 @@ func (h *Hub) drop(client *Client) {
 	if err != nil {
 		log.WithFields(log.Fields{"error": err.Error(), "topic": client.topic, "booking_id": client.bookingID}).Warning("deny channel not deleted on client unregister")
 	}
+	verifhook.Point("hub.afterDrop", client.bookingID)
 }
 
 // ConnectionType represents whether the connection is session, shell, or unsupported
@@ -615,6 +618,7 @@ func serveWs(closed <-chan struct{}, w http.ResponseWriter, r *http.Request, con
 
 	// Exchange code for token
 
+	verifhook.Point("ws.beforeExchange", code)
 	token, err := config.CodeStore.ExchangeCode(code)
 
 	if err != nil {
@@ -657,12 +661,14 @@ func serveWs(closed <-chan struct{}, w http.ResponseWriter, r *http.Request, con
 		return
 	}
 
+	verifhook.Point("ws.beforeDenyCheck", token.BookingID)
 	// we must check the booking is not denied here, else a user could request access, get a code, cancel booking, then use code to start a connection
 	if config.DenyStore.IsDenied(token.BookingID) {
 		log.WithFields(log.Fields{"topic": topic, "booking_id": token.BookingID}).Error("unauthorized because booking_id is deny listed")
 		return
 	}
 
+	verifhook.Point("ws.afterDenyCheck", token.BookingID)
 	// check permissions
 
 	var canRead, canWrite bool
@@ -708,6 +714,7 @@ func serveWs(closed <-chan struct{}, w http.ResponseWriter, r *http.Request, con
 			scopes:     token.Scopes,
 		}
 		client.hub.register <- client
+		verifhook.Point("ws.afterRegister", token.BookingID)
 
 		cf := log.Fields{
 			"booking_id":  token.BookingID,
@@ -1039,10 +1046,12 @@ func handleConnections(closed <-chan struct{}, parentwg *sync.WaitGroup, message
 			case <-closed:
 				break
 			case bid := <-deny:
+				verifhook.Point("crossbar.denyReceived", bid)
 				err := dcs.DeleteAndCloseParent(bid) //close all connections with this booking id
 				if err != nil {
 					log.WithFields(log.Fields{"error": err.Error(), "bid": bid}).Error("error closing connections for bid")
 				}
+				verifhook.Point("crossbar.denyProcessed", bid)
 
 			}
 		}
